@@ -119,7 +119,7 @@ def scenario(B, G, n, h, a, psd=True):
 def jobs(tier):
     archs = [(1, 1, 1), (1, 2, 2), (1, 1, 2), (2, 1, 1), (2, 2, 1), (2, 2, 2), (3, 1, 1)]
     if tier != "quick":
-        archs += [(2, 1, 2), (1, 3, 3), (2, 3, 3), (3, 2, 2), (3, 1, 2), (4, 1, 1), (4, 2, 1), (3, 3, 2), (2, 4, 4), (1, 4, 4), (3, 1, 3), (4, 3, 1)]
+        archs += [(2, 1, 2), (1, 3, 3), (2, 3, 3), (3, 2, 2), (3, 1, 2), (4, 1, 1), (4, 2, 1), (3, 3, 2), (1, 4, 4), (3, 1, 3), (4, 3, 1)]
     out = [dict(name="dm-%d-%d-%d" % t, module="checks.c02", scenario="scenario", kwargs=dict(n=t[0], h=t[1], a=t[2])) for t in archs]
     out.sort(key=lambda j: -(4 ** j["kwargs"]["n"]) * (4 ** j["kwargs"]["a"]) * (2 ** j["kwargs"]["h"]))
     return out
